@@ -25,11 +25,15 @@ def main():
     os.rmdir(wt)
     subprocess.run(['git', '-C', '/repo', 'worktree', 'add', '-q', '--detach', wt, 'HEAD'], check=True)
     try:
+        demo = os.path.join(seed, 'demo.py')
+        if os.path.exists(demo):
+            d = subprocess.run(['/venv/bin/python', os.path.abspath(demo)], env=dict(os.environ, PYTHONPATH=wt + '/src'),
+                               capture_output=True, text=True, cwd=seed)
+            print('demo on unchanged tree: exit %d' % d.returncode)
         r = subprocess.run(['git', '-C', wt, 'apply', os.path.abspath(patch)], capture_output=True, text=True)
         if r.returncode != 0:
             print('PATCH DOES NOT APPLY: ' + r.stderr.strip())
             return 2
-        demo = os.path.join(seed, 'demo.py')
         if os.path.exists(demo):
             d = subprocess.run(['/venv/bin/python', os.path.abspath(demo)], env=dict(os.environ, PYTHONPATH=wt + '/src'),
                                capture_output=True, text=True, cwd=seed)
